@@ -43,7 +43,7 @@ def s_converge(F, res):
     if not any(k == "converged" for k, _, _ in exits):
         res.add([finding("S-CONVERGE", "tx3_resolver::resolve_tx|no convergence exit", w, "the loop has no exit on eval_pass() == None")])
     good, reason, g = e8_state.eval_pass_first_round_is_some(F)
-    key = "tx3_resolver::eval_pass|Ok(None) only after comparing with the previous evaluation"
+    key = "%s|Ok(None) only after comparing with the previous evaluation" % e8_state.resolver_roles(F)[1]
     # Ok(None) must also be on the equal edge of `eval != *last_eval`
     cmpcalls = [bi for bi, t in mir.calls(g) if (t.get("callee") or "") in ("std::cmp::PartialEq::ne", "std::cmp::PartialEq::eq") and "CompiledTx" in (t.get("resolved") or "") + " ".join(t.get("gargs") or [])]
     if good and cmpcalls:
@@ -62,21 +62,27 @@ def s_converge(F, res):
 
 
 def s_feeflow(F, res):
-    g = F.body("tx3_resolver::eval_pass")
+    pfn = e8_state.resolver_roles(F)[1]
+    g = e8_state.pass_body(F)
     du = mir.DefUse(g)
     af = [(bi, t) for bi, t in mir.calls(g) if call_matches(t, "tx3_tir::reduce::apply_fees") or is_trait_call(t, c06.APPLY, "apply_fees")]
-    key = "tx3_resolver::eval_pass|fee applied = previous reported fee"
+    key = "%s|fee applied = previous reported fee" % pfn
     if not af:
-        raise BrokenCheck("eval_pass no longer calls apply_fees")
+        raise BrokenCheck("the pass function (%s, helpers inlined) no longer calls apply_fees" % pfn)
     good = True
     why = []
     for bi, t in af:
-        o = mir.provenance(g, du, t["args"][1], transparent_extra=("std::option::Option::<T>::unwrap_or", "std::option::Option::<T>::map", "std::option::Option::<T>::as_ref"))
-        les = set(e8_state.var_locals(g, "last_eval"))
+        o = mir.provenance(g, du, t["args"][1], transparent_extra=("std::option::Option::<T>::unwrap_or", "std::option::Option::<T>::map", "std::option::Option::<T>::as_ref", "std::option::Option::<T>::map_or", "std::option::Option::<T>::unwrap_or_default"))
+        les = set(e8_state.typed_locals(g, e8_state.OPT_REF_CT))
         roots_ok = all((x.kind in ("local", "arg") and (x.local in les or x.local == 1)) or x.kind == "const" for x in o)
-        # the closure handed to map reads `.fee`
+        # the closure handed to map reads `.fee` (or the fee is projected directly)
         reads_fee = False
-        for b in with_closures(F, F.fns["tx3_resolver::eval_pass::{closure#0}"]) + [c for c in F.fns.values() if c.get("owner") == "tx3_resolver::eval_pass"]:
+        clos = set()
+        for bj, sj, st in mir.stmts(g):
+            if st["rv"]["k"] == "agg" and "closure" in st["rv"]:
+                clos.add(st["rv"]["closure"])
+        bodies = [g] + [F.fns[c] for c in clos if c in F.fns]
+        for b in bodies:
             for bj, sj, s in mir.stmts(b):
                 rv = s["rv"]
                 pl = mir.op_place(rv.get("op")) if rv["k"] in ("use", "cast") else (rv.get("pl") if rv["k"] == "ref" else None)
@@ -121,7 +127,7 @@ def s_feeflow(F, res):
         f, line, what = edits[0]
         res.add([finding("S-FEEFLOW", key1, where(f, line), "%s %s: the fee it reports need no longer be the fee computed from the payload it returns" % (f["path"].split("::")[-1] if not f.get("owner") else f["owner"].split("::")[-1], what))])
     elif not nsome:
-        raise BrokenCheck("eval_pass returns no Some(evaluation)")
+        raise BrokenCheck("the pass function returns no Some(evaluation)")
     elif not from_compile:
         res.add([finding("S-FEEFLOW", key1, where(g), "an evaluation returned by eval_pass is not the direct result of Compiler::compile")])
     else:
